@@ -1,5 +1,6 @@
 //! Check registry: maps property ids to worker / replay implementations.
 
+pub mod batch;
 pub mod conc;
 pub mod corrupt;
 pub mod crash;
@@ -15,7 +16,7 @@ pub const HISTORY_IDS: &[&str] = &["C01", "C03", "C04", "C07", "C09", "C10", "C1
 
 pub fn all_ids() -> Vec<&'static str> {
     let mut v: Vec<&'static str> = HISTORY_IDS.to_vec();
-    v.extend(["C02", "C16", "C12", "C08", "C15", "C13", "C14", "C05"]);
+    v.extend(["C02", "C16", "C12", "C08", "C15", "C13", "C14", "C05", "C06"]);
     v.sort();
     v
 }
@@ -90,6 +91,14 @@ pub fn meta(id: &str) -> Option<CheckMeta> {
                 "thread timing varies between runs; the oracle judges the recorded history, so timing cannot cause a false alarm".into(),
             ],
         }),
+        "C06" => Some(CheckMeta {
+            id: "C06",
+            level: "exploration",
+            rule: "1-3 writers each own a group of 2-8 keys and apply batches that write their next counter to every key of the group (values 16-316 B, so batches exceed a 512 B memtable), write every key twice in one batch (a transient marker value, then the final value), or delete the whole group; 1-3 readers continuously take a snapshot and get every key at it (forward or reverse key order), scan with a fresh iterator, or issue plain gets (checked only for transient values), until the writers are done; 1-4 generated directives hold a writer at write.before_wal / write.after_wal / write.mid_memtable (after the n-th element) / write.after_memtable for 15-90 ms while the readers keep reading. Oracle: at every read point all keys of a group carry the same counter or are all absent, the counter a reader sees for a group never decreases, and no read of any kind ever returns a value that the same batch overwrites. Non-trivial = at least one read point was taken while a writer was held strictly inside apply (after the WAL append began); distinct by case hash".into(),
+            assumptions: vec![
+                "holds end after a timeout because queued writers cannot finish while the head writer is held; the timeout affects coverage only".into(),
+            ],
+        }),
         "C12" => Some(CheckMeta {
             id: "C12",
             level: "exploration",
@@ -125,6 +134,7 @@ pub fn worker(ctx: &WorkerCtx) -> WorkerResult {
         "C08" => return fault::worker(ctx),
         "C15" => return corrupt::worker(ctx),
         "C05" => return conc::worker_c05(ctx),
+        "C06" => return batch::worker(ctx),
         "C13" | "C14" => return tablefmt::worker(ctx),
         _ => {}
     }
@@ -141,6 +151,7 @@ pub fn replay_value(v: &Value) -> Result<(), String> {
         "faultpoint-termination" => fault::replay_termination(v),
         "corruptpoint" => corrupt::replay(v),
         "conc" => conc::replay(v),
+        "batch" => batch::replay(v),
         "tablefmt" | "filterpolicy" => tablefmt::replay(v),
         other => Err(format!("unknown replay engine {other:?}")),
     }
